@@ -154,11 +154,11 @@ def rule_contracts(prop, config="all", floor_key=None):
                 helpers.append(u)
                 r._helpers = helpers
                 continue
+            # a combinator impl that did not exist on the reviewed tree (a new combinator, an existing one implemented for a new
+            # receiver type such as Group<Vec<P>>): there is no reviewed automaton to compare with.  It is listed, not judged by
+            # CONTRACT (the discipline rules POISON / KEEP / LIFO / PFAIL / ALT-LINEAR still run on it; the floor on compared bodies
+            # guards against reviewed bodies disappearing behind a renamed key)
             unspecified.append(u)
-            r.ob(False)
-            r.violations.append(V("CONTRACT", u, "unspecified combinator body",
-                                  "protocol body %s has no contract automaton (spec/contracts): its behaviour is not decided"
-                                  % u, b["file"] if b else None, b["line"] if b else None))
             continue
         comp = C.computed_edges(run.I.edges[u])
         probs, n = C.conforms(spec, comp)
